@@ -782,7 +782,7 @@ func (c35Store) Exec(s Step, path, aux string) error {
 }
 
 func init() {
-	core.Register(histProp{id: "C35", store: c35Store{}, maxLen: 10, quickDocs: 4, quickN: 40, thoroughN: 2500,
+	core.Register(histProp{id: "C35", store: c35Store{}, maxLen: 10, quickDocs: 4, quickN: 40, thoroughN: 800,
 		rule: "seeded histories of 1-10 edits (keywords add/remove/remove-all, properties add/remove/remove-all, page layout and page mode set/reset, viewer preferences set/reset (17 preferences: flags, direction, view/print area and clip, print scaling, duplex, copies, non-full-screen page mode), attachments add/remove) over small Unicode/special-character alphabets on corpus documents, each edit through the in-place file API; after every step the listing and the extracted attachment bytes are compared with a map/set model. Half of the batches inject, in about one step of four, an errno / short write / full disk / writer panic / crash snapshot at a seeded mutating file-system call of that step. Distinct by (document, step sequence incl. faults); non-trivial when at least one step succeeded.",
 		assumptions: []string{
 			"keyword alphabet excludes ',' ';' and leading/trailing blanks (the Keywords entry is one separator-joined string, those are not representable); property keys exclude the standard Info keys (they are not listed as properties); re-adding a present attachment id is not generated (the statement does not say whether it replaces or duplicates)",
